@@ -15,6 +15,7 @@ import (
 	"github.com/cloudflare/pint/internal/config"
 	"github.com/cloudflare/pint/internal/parser"
 	"github.com/cloudflare/pint/verifharness/explore"
+	"github.com/cloudflare/pint/verifharness/lib/pintbin"
 	"github.com/cloudflare/pint/verifharness/lib/pipeline"
 	"github.com/cloudflare/pint/verifharness/lib/rulegen"
 )
@@ -358,10 +359,47 @@ func seedBody(c *explore.Chooser) *explore.Case {
 	return cs
 }
 
+// binary: the shipped command with the lint flags that add code paths of their own (ownership verification,
+// every output format at once) on every generated document with at most one deviation, strict and relaxed.
+func binary(c *explore.Chooser) *explore.Case {
+	d := rulegen.Semantic(c)
+	relaxed := c.Free(2, "relaxed") == 1
+	flags := [][]string{{"--require-owner"}, {"--require-owner", "--checkstyle", "cs.xml", "--json", "out.json"}, {"--teamcity", "--min-severity", "info"}, {"--show-duplicates", "--fail-on", "info"}}[c.Free(4, "flags")]
+	dir := pintbin.Scratch("c02bin")
+	defer os.RemoveAll(dir)
+	cfgText := ""
+	if relaxed {
+		cfgText = "parser {\n  relaxed = [\".*\"]\n}\n"
+	}
+	os.WriteFile(filepath.Join(dir, ".pint.hcl"), []byte(cfgText), 0o644)
+	os.WriteFile(filepath.Join(dir, "rules.yml"), []byte(d.Text), 0o644)
+	args := append([]string{"--offline", "-c", ".pint.hcl", "lint"}, flags...)
+	args = append(args, "rules.yml")
+	res := pintbin.Run(dir, "", nil, args...)
+	input := map[string]any{"deviations": d.Deviations, "file": d.Text, "args": strings.Join(args, " "), "relaxed": relaxed}
+	cs := &explore.Case{Input: input, Key: fmt.Sprint(relaxed, flags) + d.Text, Trivial: len(d.Deviations) == 0, Outcome: fmt.Sprintf("binary exit=%d", res.Exit)}
+	if res.Panicked {
+		site := "unknown"
+		for _, l := range strings.Split(res.Stderr, "\n") {
+			if strings.HasPrefix(l, "github.com/cloudflare/pint/") || strings.HasPrefix(l, "main.") {
+				site = l
+				if i := strings.IndexByte(site, '('); i > 0 {
+					site = site[:i]
+				}
+				break
+			}
+		}
+		cs.Violate("panic:binary:"+site, "pint "+strings.Join(args, " ")+" panics", map[string]any{"input": input, "stderr": res.Stderr})
+	} else if res.Exit != 0 && res.Exit != 1 {
+		cs.Violate(fmt.Sprintf("binary-exit-%d", res.Exit), "unexpected exit status", map[string]any{"input": input, "stderr": res.Stderr})
+	}
+	return cs
+}
+
 func main() {
 	explore.Main(&explore.Config{
 		Property: "C02", Level: "exploration",
-		Rule: "(a) all structurally generated documents with <=2 deviations (3 thorough) x {strict,relaxed} x {prometheus+utf8, thanos+legacy}; (b) seed corpus = every YAML body of the repository's fixtures up to 12 lines/400 bytes (thorough: 40 lines/1500 bytes) x {strict,relaxed} x ALL single mutations: 7 whole-file transforms, 10 line ops at every line, 17 pint comments appended to / inserted at every line, 12 token replacements at every key, every byte deleted, every byte offset x 18 (thorough 26) inserted characters; distinct = distinct (mode, bytes)",
+		Rule: "(a) all structurally generated documents with <=2 deviations (3 thorough) x {strict,relaxed} x {prometheus+utf8, thanos+legacy}; (b) seed corpus = every YAML body of the repository's fixtures up to 12 lines/400 bytes (thorough: 40 lines/1500 bytes) x {strict,relaxed} x ALL single mutations: 7 whole-file transforms, 10 line ops at every line, 17 pint comments appended to / inserted at every line, 12 token replacements at every key, every byte deleted, every byte offset x 18 (thorough 26) inserted characters; distinct = distinct (mode, bytes); (c) the real binary with --require-owner / all output formats at once / --teamcity / --show-duplicates on every generated document with <=1 deviation (2 thorough), strict and relaxed: no panic, exit status 0 or 1",
 		Assumptions: []string{
 			"checks run through the sequential library seam (same loop as scan.go without the goroutine fan-out); a panic there is a panic of the shipped command because scanWorker does not recover",
 			"hang detection = no progress for 120 s on a case that normally takes <5 ms",
@@ -375,6 +413,12 @@ func main() {
 				return 2
 			}},
 			{Name: "seeds", Body: seedBody, Setup: setup, Bound: func(string) int { return -1 }},
+			{Name: "binary", Body: binary, Setup: setup, Bound: func(t string) int {
+				if t == "thorough" {
+					return 2
+				}
+				return 1
+			}},
 		},
 		BudgetS: func(t string) int {
 			if t == "thorough" {
